@@ -118,12 +118,8 @@ func (h *Head) Update(refs *Refs, rootGoitPath, newRef string) error {
 // reset Head to the specified state by hash
 // This method does not change Head.Reference, just change Commit
 func (h *Head) Reset(rootGoitPath string, refs *Refs, hash sha.SHA1) error {
-	// write branch hash
-	if err := refs.UpdateBranchHash(rootGoitPath, h.Reference, hash); err != nil {
-		return fmt.Errorf("fail to update branch hash: %w", err)
-	}
-
-	// get commit object
+	// get commit object first: the id comes from the reflog, and the branch must never
+	// be set to something that is not a stored commit
 	commitObject, err := object.GetObject(rootGoitPath, hash)
 	if err != nil {
 		return fmt.Errorf("fail to get commit object: %w", err)
@@ -133,6 +129,11 @@ func (h *Head) Reset(rootGoitPath string, refs *Refs, hash sha.SHA1) error {
 	commit, err := object.NewCommit(commitObject)
 	if err != nil {
 		return fmt.Errorf("fail to get commit: %w", err)
+	}
+
+	// write branch hash
+	if err := refs.UpdateBranchHash(rootGoitPath, h.Reference, hash); err != nil {
+		return fmt.Errorf("fail to update branch hash: %w", err)
 	}
 
 	// update commit
